@@ -83,8 +83,10 @@ fn decode(vi: usize, b: &Bounds, idx: u64) -> Case {
     };
     let modbase = if modmenu == 3 { top - (MODSZ - 1) } else { 0x4000_0000 };
     let in_func = modbase + MOD_OFF_FUNC;
-    // with two modules the "module but no function" address lies in the second module (no symbol file)
-    let nofunc = modbase + MOD_OFF_NOFUNC + if modmenu == 1 { MODSZ } else { 0 };
+    // with two (adjacent) modules the "module but no function" address is the very first byte of the second
+    // module (no symbol file): as a return address its lookup address (minus the call adjustment) is the last
+    // byte of the first module, so module attribution by the wrong one of the two addresses shows
+    let nofunc = if modmenu == 1 { modbase + MODSZ } else { modbase + MOD_OFF_NOFUNC };
     let alphabet = [0, 4095, in_func, nofunc, base, base.wrapping_add(p), base.wrapping_add(size) & top, top, 4096, base.wrapping_add(2 * p), 1, base.wrapping_add(size).wrapping_sub(p) & top];
     let words = (0..n).map(|i| alphabet[dg[i] as usize]).collect();
     let bs = base.wrapping_add(size) & top;
@@ -117,13 +119,14 @@ fn sym_text(c: &Case) -> Option<String> {
         5 => cfi(format!(".cfa: {sp} ^ .ra: .cfa {p} - ^")),          // sp restored from memory
         6 => cfi(format!(".cfa: {sp} 1 + .ra: {in_func}")),           // never touches memory, 1 byte per frame
         7 => cfi(format!(".cfa: {sp} {p} + .ra: {in_func}")),         // never touches memory, one word per frame
+        10 => Some(format!("{head}STACK CFI INIT 1000 80 .cfa: {sp} .ra: {}\nSTACK CFI INIT 1080 80 .cfa: {sp} .ra: {}\n", in_func + 0x80, in_func)), // two ranges calling each other, sp never moves
         8 => Some(format!("{head}STACK WIN 4 1000 100 0 0 0 0 0 0 1 $T0 $ebp = $eip $T0 4 + ^ = $ebp $T0 ^ = $esp $T0 8 + =\n")),
         _ => Some(format!("{head}STACK WIN 0 1000 100 0 0 0 0 4 0 0 0\n")),
     }
 }
 
 fn sym_name(m: u64) -> &'static str {
-    ["none", "FUNC only", "CFI cfa=sp+ptr ra=[cfa-ptr]", "CFI cfa=sp ra=const", "CFI cfa=sp-ptr ra=const", "CFI cfa=[sp] ra=[cfa-ptr]", "CFI cfa=sp+1 ra=const", "CFI cfa=sp+ptr ra=const", "STACK WIN framedata", "STACK WIN fpo"][m as usize]
+    ["none", "FUNC only", "CFI cfa=sp+ptr ra=[cfa-ptr]", "CFI cfa=sp ra=const", "CFI cfa=sp-ptr ra=const", "CFI cfa=[sp] ra=[cfa-ptr]", "CFI cfa=sp+1 ra=const", "CFI cfa=sp+ptr ra=const", "STACK WIN framedata", "STACK WIN fpo", "CFI ping-pong cfa=sp ra=other range"][m as usize]
 }
 
 fn modules_of(c: &Case) -> Vec<(String, u64, u64)> {
@@ -311,7 +314,8 @@ fn main() {
     run_check("C05", |ctx| {
         let quick = ctx.tier == Tier::Quick;
         const MAIN_SYMS: &[u64] = &[0, 1, 2, 3, 4, 5, 6];
-        const ALL_SYMS: &[u64] = &[0, 1, 2, 3, 4, 5, 6, 7];
+        const ALL_SYMS: &[u64] = &[0, 1, 2, 3, 4, 5, 6, 7, 10];
+        const PINGPONG: &[u64] = &[10];
         let b = if quick { Bounds { n: 4, k: 8, nctx: 8, nvalid: 3, nmod: 2, nplace: 2, syms: MAIN_SYMS } } else { Bounds { n: 5, k: 9, nctx: 8, nvalid: 3, nmod: 2, nplace: 2, syms: MAIN_SYMS } };
         // thorough only: the remaining menu values (validity singletons, no module / module at the top of
         // the address space, stack whose end wraps, word-per-frame CFI without memory access) on shorter stacks
@@ -341,6 +345,16 @@ fn main() {
             let len = b.k.pow(b.n) * b.nctx * b.nvalid * nsym(*arch, &b) * b.nmod * b.nplace;
             let name = format!("{}-{}", arch.name(), os_name(*os));
             def.spaces.push(Space::new(&name, len, move |idx, l| run_case(vi, &b, idx, l), move |idx| describe(vi, &b, idx)).chunked(4096));
+        }
+        // both tiers: CFI ranges that hand control to each other without moving sp (a walk must not cycle)
+        {
+            let pp = Bounds { n: 2, k: 8, nctx: 8, nvalid: 3, nmod: 2, nplace: 2, syms: PINGPONG };
+            for (vi, (arch, os)) in VARIANTS5.iter().enumerate() {
+                let b = pp;
+                let len = b.k.pow(b.n) * b.nctx * b.nvalid * nsym(*arch, &b) * b.nmod * b.nplace;
+                let name = format!("pingpong-{}-{}", arch.name(), os_name(*os));
+                def.spaces.push(Space::new(&name, len, move |idx, l| run_case(vi, &b, idx, l), move |idx| describe(vi, &b, idx)).chunked(1024));
+            }
         }
         if !quick {
             for (vi, (arch, os)) in VARIANTS5.iter().enumerate() {
